@@ -45,6 +45,7 @@ Fresh(c, s, b) ==
     /\ accepted' = [i \in M |-> <<>>]
     /\ seen' = [i \in M |-> [k \in 1..MaxN |-> <<>>]]
     /\ nArr' = [i \in M |-> 0]
+    /\ recvFrom' = [i \in M |-> [j \in M |-> 0]]
     /\ rcvErr' = [i \in M |-> 0]
     /\ outcome' = [i \in M |-> Running]
 
@@ -62,6 +63,7 @@ TInit ==
     /\ accepted = [i \in M |-> <<>>]
     /\ seen = [i \in M |-> [k \in 1..MaxN |-> <<>>]]
     /\ nArr = [i \in M |-> 0]
+    /\ recvFrom = [i \in M |-> [j \in M |-> 0]]
     /\ rcvErr = [i \in M |-> 0]
     /\ outcome = [i \in M |-> Running]
     /\ l = 1
@@ -161,7 +163,7 @@ TDrop ==
              \/ pf[Ev.i] # "none"
           /\ nArr' = [nArr EXCEPT ![Ev.i] = @ + 1]
           /\ UNCHANGED <<cfg, start, block, block0, pc, cur, lastEnd, waitReq, initReq, initAct,
-                         endReq, registered, queue, accepted, seen, rcvErr, outcome>>
+                         endReq, registered, queue, accepted, seen, recvFrom, rcvErr, outcome>>
 
 TReturn ==
     /\ IsEvent("Return")
